@@ -19,10 +19,11 @@ def fcnLogReturnSrc (mp fund mpPast wf wc wn noise : K) (tw mrt : Nat) (chartFol
 
 /-- valuation: clock `t`, window, mean-reversion time; the weights, noise scale, margin; fundamental price,
 price now, price at the start of the window, the Gaussian draw; the two flags -/
-def rhoFcn (t window mrt : Nat) (wf wc wn ns margin fund mp mpPast g : K) (accessible cf : Bool) : Rho K :=
+def rhoFcn (t window mrt : Nat) (wf wc wn ns margin fund mp mpPast g : K) (accessible cf : Bool) (g2 : K := g) : Rho K :=
   { i := fun k => if k = 1 then t else if k = 2 then window else if k = 3 then mrt else 0
     n := fun k => if k = 1 then wf else if k = 2 then wc else if k = 3 then wn else if k = 4 then ns
-      else if k = 5 then margin else if k = 10 then fund else if k = 11 then mp else if k = 12 then mpPast else g
+      else if k = 5 then margin else if k = 10 then fund else if k = 11 then mp else if k = 12 then mpPast
+      else if k = 14 then g2 else g
     b := fun k => if k = 1 then accessible else cf }
 
 /-- the orders the formula gives: window actually used = `min(t, window)` -/
@@ -72,5 +73,37 @@ theorem fcn_src_inaccessible (t window mrt : Nat) (wf wc wn ns margin fund mp mp
   py_paths fcnPaths_eq
   all_goals intro h
   all_goals simp [BTerm.eval, ITerm.eval, NTerm.eval, rhoFcn, Obs.eval, Obs.evalList] at h ⊢
+
+/-- normal-margin mode: both sides quote the expected price displaced by `gauss · margin` (a second draw `g2`) -/
+def fcnSrcOrdersNormal (t window mrt : Nat) (wf wc wn ns margin fund mp mpPast g g2 : K) (cf : Bool) : List (AOrder K) :=
+  let tw := if window < t then window else t
+  let e := fcnExpected mp (fcnLogReturnSrc mp fund mpPast wf wc wn (ns * g) tw mrt cf) window
+  let price := e + g2 * margin
+  (if mp < e then [{ isBuy := true, price := price, vol := 1, ttl := window }] else []) ++
+  (if e < mp then [{ isBuy := false, price := price, vol := 1, ttl := window }] else [])
+
+set_option maxHeartbeats 4000000 in
+/-- **normal-margin mode of `FCNAgent.submit_orders_by_market`**: the same expected price and sides; the quote is
+`E + gauss · margin` for a second Gaussian draw, refused (`AssertionError`) if negative -/
+theorem fcn_src_normal (t window mrt : Nat) (wf wc wn ns margin fund mp mpPast g g2 : K) (cf : Bool)
+    (hpos : ∀ n : Int, 0 < n → (NumOpsC.ofInt n : K) ≠ NumOpsC.ofInt 0)
+    (hmp : mp ≠ NumOpsC.ofInt 0) (hpast : mpPast ≠ NumOpsC.ofInt 0) (hw : wf + wc + wn ≠ NumOpsC.ofInt 0)
+    (hwf : (NumOpsC.ofInt 0 : K) ≤ wf) (hwc : (NumOpsC.ofInt 0 : K) ≤ wc) (hwn : (NumOpsC.ofInt 0 : K) ≤ wn)
+    (hm0 : (NumOpsC.ofInt 0 : K) ≤ margin)
+    (hprice : (NumOpsC.ofInt 0 : K) ≤
+      fcnExpected mp (fcnLogReturnSrc mp fund mpPast wf wc wn (ns * g) (if window < t then window else t) mrt cf) window
+        + g2 * margin) :
+    resultG ordersObs (rhoFcn t window mrt wf wc wn ns margin fund mp mpPast g true cf g2) fcnEnv FUEL
+        "FCNAgent.submit_orders_by_market" [.ref 1, .ref 5] fcnStNormal
+      = .tuple ((fcnSrcOrdersNormal t window mrt wf wc wn ns margin fund mp mpPast g g2 cf).map (aorderObs 0)) := by
+  apply resultG_eq_of_pathsP (by intro x; simp)
+  show ∀ p ∈ fcnPathsNormal, _
+  py_paths fcnPathsNormal_eq
+  all_goals intro h
+  all_goals simp [BTerm.eval, ITerm.eval, NTerm.eval, rhoFcn, Obs.eval, Obs.evalList] at h ⊢
+  all_goals (revert h; simp only [and_imp]; intros)
+  all_goals try (simp_all [fcnSrcOrdersNormal, fcnOrders, fcnExpected, fcnLogReturnSrc, aorderObs, lt_false_of_le, le_false_of_lt,
+    int_cast_lt_one, int_one_le_cast, nat_lt_false_of_le]; done)
+  all_goals (exfalso; simp_all [fcnExpected, fcnLogReturnSrc, int_cast_lt_one, int_one_le_cast, nat_lt_false_of_le]; grind)
 
 end Pams.Src
